@@ -107,14 +107,14 @@ def falsify(ctx, case: Dict) -> bool:
 def gen_case(rng, ctx) -> Dict:
     n = rng.randint(3, 60 if not ctx.thorough else 160)
     step = rng.choice([20, 60, 60, 300])
-    rows = X.gen_rows(rng, n, step=step, ts_mode=rng.choice(["regular", "jitter", "gaps"]), late=0)
+    rows = X.gen_rows(rng, n, step=step, ts_mode=rng.choice(["regular", "jitter", "gaps", "biggaps"]), late=0)
     for r in rows:
         r["inds"] = {}
     hcfg: Dict = {}
     if rng.random() < 0.3:
         hcfg["tf"] = rng.choice(TF_LADDER[:2])
-        if rng.random() < 0.3:
-            hcfg["fill"] = True
+    if rng.random() < 0.3:
+        hcfg["fill"] = True      # also without a Hexital-level timeframe: it governs the members' own timeframes
     if rng.random() < 0.25:
         hcfg["ha"] = True
     if rng.random() < 0.2:
